@@ -42,6 +42,14 @@ def run(ctx, rep):
         qs = [{'rule': n, 'target': target, 'creds': creds, 'do_raise': dr} for n in ('p', 'q') for dr in (False, True)]
         qs.append({'rule': {'check': rules['p']}, 'target': target, 'creds': creds})
         scs.append({'rules': rules, 'queries': qs, '_leaves': leaves})
+    # rule texts that are one hostile word (an operator in odd case, a quoted word, a parenthesis): nothing to evaluate,
+    # so they deny — by name, through a reference, and as a check object
+    for word in ['NOT', 'And', 'oR', 'not', '"class"', "'1'", "''", '""', '"a b"'.replace(' ', '_'), '(', ')', '((', '()',
+                 'class', '1+', ':', '::', 'a:', ':a']:
+        creds = {'roles': ['r0'], 'a': 'x'}
+        target = {'k': 'v', 'n': None}
+        qs = [{'rule': n, 'target': target, 'creds': creds, 'do_raise': dr} for n in ('p', 'q') for dr in (False, True)]
+        scs.append({'rules': {'p': word, 'q': 'rule:p or role:zz'}, 'queries': qs, '_leaves': [word]})
     # single leaves whose left side resolves to nothing (not a literal, no such credential path): they must deny,
     # whatever the right side renders as
     n_single = 0
